@@ -212,7 +212,7 @@ Definition enq_in_order (l : label) : Prop := match l with LEnq i => i = 0 | _ =
 Definition write_all_keep (l : label) : Prop := match l with LWrite b => forallb e_keep b = true | _ => True end.
 
 (* does the code apply the filter? flipped to true when proposed_fixes/C10-pipe-filter-not-applied lands *)
-Definition code_applies_filter : bool := false.
+Definition code_applies_filter : bool := true.
 
 (* ---- canonical schedule of a scenario, used by the correspondence check ---- *)
 (* drive the worker n quanta *)
